@@ -276,20 +276,42 @@ func stopBacklogCase(k *engine.Case) {
 		return
 	}
 	var queued []*engine.Op
+	lastID := map[string]int{keyStr(keys[0]): 100} // per key: the operation accepted last
 	for i, n := 0, 2+r.Intn(6); i < n; i++ {
 		key, id := keys[r.Intn(len(keys))], 101+i
+		if r.Intn(2) == 0 {
+			key = keys[0] // the blocked worker's key: these certainly queue up behind the gate operation
+		}
+		lastID[keyStr(key)] = id
 		queued = append(queued, d.Spawn(fmt.Sprintf("queued#%d", id), func() any { return up(g1, st1, key, id) }))
 		if !d.Quiesce() {
 			return
 		}
 	}
-	// stop with the backlog in place, then let the blocked worker go on
+	// stop with the backlog in place, then let the blocked worker go on - up to the next upsert
+	// callback, which is held in turn: while it is inside the store, no other operation on its
+	// key may reach the store
 	d.Spawn("Stop (first group)", func() any { g1.Stop(); return nil })
 	if !d.Quiesce() {
 		return
 	}
+	gate2 := make(chan struct{})
 	st1.mu.Lock()
-	close(st1.gate)
+	gate1 := st1.gate
+	st1.gate = gate2
+	st1.gated.Store(false)
+	close(gate1)
+	st1.mu.Unlock()
+	if !d.Quiesce() {
+		return
+	}
+	if n := st1.overl.Load(); n > 0 {
+		k.Fail("store-overlap", "first group, stopped with a backlog: while one queued operation was held inside the store's upsert callback, %d other callback(s) on the same key entered the store: %v", n, Q.Describe())
+		close(gate2)
+		return
+	}
+	st1.mu.Lock()
+	close(gate2)
 	st1.gate = nil
 	st1.mu.Unlock()
 	ws := d.Spawn("WaitStop (first group)", func() any { g1.WaitStop(context.Background()); return nil })
@@ -303,6 +325,22 @@ func stopBacklogCase(k *engine.Case) {
 	for _, q := range queued {
 		if !q.Done() {
 			k.Fail("operation-stuck", "first group: an operation queued before Stop never returned: %v", Q.Describe())
+			return
+		}
+	}
+	// applied in the order accepted: every accepted operation has returned, so each key holds
+	// what the operation accepted last for it wrote
+	for _, q := range append([]*engine.Op{gateOp}, queued...) {
+		if res, ok := q.Result().(opRes); !ok || res.err != nil {
+			lastID = nil // an operation was refused (the statement leaves that open): no order verdict
+			break
+		}
+	}
+	for ks, id := range lastID {
+		sv, _ := st1.value(ks)
+		k.Evals(1)
+		if ver, ok := verOf(sv); ok && ver%1000 != id%1000 {
+			k.Fail("order-violated", "first group, stopped with a backlog: every queued operation returned without error, the operation accepted last for %s carried %d, but the store ends up with the value written by the one carrying %d", ks, id%1000, ver%1000)
 			return
 		}
 	}
